@@ -156,13 +156,18 @@ def h_correlate_bad(cx, la, lb, why):
         cx.fail('no-exception[%s]' % why)
 
 
-def h_merge(cx, parts, flags):
+def h_merge(cx, parts, flags, derive=()):
+    """`derive`: indices of inputs that are non-linear functions of their raw data (central value != mean of the replica means): the merged
+    observable is the one whose per-configuration data on each chain are fluctuation + replica mean of the input"""
     import pyerrors as pe
     lib.sym_env(cx, *MODS)
     obs, smp = [], {}
     dup = False
     for i, lay in enumerate(parts):
         o, s = _mk_raw(cx, 'p%d' % i, lay)
+        if i in derive:
+            o = o * o + 0.5 * o
+            s = {n: {c: o.deltas[n][k] + o.r_values[n] for k, c in enumerate(o.idl[n])} for n in o.names}
         o.reweighted = flags[i]
         obs.append(o)
         for n in s:
@@ -305,6 +310,9 @@ def jobs(tier, seed):
     for i, p in enumerate(parts):
         add('merge', parts=p, flags=[False] * len(p))
         add('merge', parts=p, flags=[k == (i % len(p)) for k in range(len(p))])
+    add('merge', parts=parts[4], flags=[False, False], derive=[0])       # derived input on two replicas with different replica means
+    add('merge', parts=parts[3], flags=[False, True], derive=[0, 1])
+    add('merge', parts=parts[0], flags=[False, False], derive=[1])
     add('merge_cov', lay=_sub(R, ['e|r1']))
     add('qtop', lay={'e|r1': [1, 2, 3, 4, 5]}, target_kind='sym')
     add('qtop', lay={'e|r1': [1, 3, 5, 7, 9, 11]}, target_kind='zero')
